@@ -147,3 +147,42 @@ pub fn verif_get_copy(e: &Box<dyn Expression>) -> (r: Box<dyn Expression>)
 {
     unimplemented!()
 }
+
+/// R19: `val.lock().unwrap()`: read access to the value behind the handle (blocking/poisoning not modelled, A1)
+#[verifier::external_body]
+pub struct VerifGuard {
+    _p: (),
+}
+
+impl VerifGuard {
+    pub uninterp spec fn value(&self) -> Data;
+
+    #[verifier::external_body]
+    pub fn deref(&self) -> (r: &Data)
+        ensures
+            *r == self.value(),
+    {
+        unimplemented!()
+    }
+}
+
+impl DataArc {
+    /// the value behind the handle at the time it was returned by the evaluation
+    pub uninterp spec fn held(&self) -> Data;
+
+    #[verifier::external_body]
+    pub fn clone(&self) -> (r: DataArc)
+        ensures
+            r == *self,
+    {
+        unimplemented!()
+    }
+}
+
+#[verifier::external_body]
+pub fn verif_locked(v: &DataArc) -> (r: VerifGuard)
+    ensures
+        r.value() == v.held(),
+{
+    unimplemented!()
+}
